@@ -24,7 +24,8 @@ def _slice_setup(c, reversed_):
     key = U.str(z3.Concat(ident.t, z3.StringVal("-"), iterable.t))
     c.inputs["stored_stopindex"] = z3.Select(sh.val, key)
     c.inputs["stored_present"] = z3.Select(sh.present, key)
-    c.requires(U.is_int(z3.Select(sh.val, key)), "stopindex-values-are-ints")
+    kq = z3.Const("k!stop", U)
+    c.requires(z3.ForAll([kq], U.is_int(z3.Select(sh.val, kq))), "every stored stop index is an int (whatever key the code looks under)")
     c.requires(length.t == L(seq), "length-is-len")
     c.requires(length.t <= 2**63 - 1, "len() of a Python sequence never exceeds sys.maxsize")
     c.requires(z3.Or(U.is_none(limit.t), U.is_int(limit.t)), "limit: int|None")
@@ -467,3 +468,59 @@ def run(m):
     out = [t.render(xs=[1, 2, 3, 4, 5]), t.render(xs=[]), asyncio.run(t.render_async(xs=[1, 2, 3, 4, 5])), asyncio.run(t.render_async(xs=[]))]
     return {"violated": out != ["1:1 3:3 |", "none|", "1:1 3:3 |", "none|"], "observed": out}
 '''
+
+
+@structural("C13", "blank-flag-covers-every-block")
+def blank_flag_covers_every_block():
+    """a block container that is marked blank is rendered into a null stream when it sits inside
+    another block (blank suppression), so a node may call itself blank only if EVERY block it can
+    render is blank -- for a for loop that includes its else block ('renders its else block exactly
+    when no item is visited' must not depend on where the loop sits)"""
+    import ast
+    from pyvc import flow, load
+    obs = []
+    n = 0
+    for m in load.all_modules():
+        mod = load.get_module(m)
+        for cname, cnode in mod.classes.items():
+            if "Node" not in [c_[1] for c_ in load.mro(m, cname)][1:]:
+                continue
+            init = load._last_def(cnode.body, "__init__")
+            if init is None:
+                continue
+            params = {a.arg: (ast.unparse(a.annotation) if a.annotation else "") for a in init.args.args[1:] + init.args.kwonlyargs}
+            blocks = sorted(p for p, ann in params.items() if "BlockNode" in ann or "TemplateBlock" in ann)
+            for st_ in ast.walk(init):
+                if isinstance(st_, ast.Assign) and any(flow.dotted(t) == "self.blank" for t in st_.targets) and ".blank" in ast.unparse(st_.value):
+                    n += 1
+                    src = ast.unparse(st_.value)
+                    names = {x.id for x in ast.walk(st_.value) if isinstance(x, ast.Name)} | {x.attr for x in ast.walk(st_.value) if isinstance(x, ast.Attribute) and flow.dotted(x.value) == "self"}
+                    missing = [b for b in blocks if b not in names]
+                    obs.append(flow.ob(f"{cname}.__init__:blank-only-if-every-block-is-blank", not missing, f"self.blank = {src[:90]}; block parameters: {blocks}; not consulted: {missing}", replay_schema="code", replay_extra={"code": REPLAY_BLANK_ELSE}))
+    obs.append(flow.ob("blank-assignments-found", n >= 5, f"{n}"))
+    return obs
+
+
+REPLAY_BLANK_ELSE = r'''
+def run(m):
+    import asyncio
+    from liquid import Environment
+    env = Environment()
+    bad = []
+    for src, want in (("{% if true %}{% for x in empty_list %}{% assign y = x %}{% else %}none{% endfor %}{% endif %}", "none"),
+                      ("{% for x in empty_list %}{% assign y = x %}{% else %}none{% endfor %}", "none"),
+                      ("{% unless false %}{% for x in xs %}{% assign y = x %}{% else %}none{% endfor %}!{% endunless %}", "!")):
+        t = env.from_string(src)
+        for got in (t.render(empty_list=[], xs=[1]), asyncio.run(t.render_async(empty_list=[], xs=[1]))):
+            if got != want:
+                bad.append((src, got, want))
+    return {"violated": bool(bad), "observed": bad[:3], "witness": "else-block-lost-to-blank-suppression"}
+'''
+
+
+# ---- "forloop helpers are consistent with the visited items" also after an error: a loop whose body
+# ---- raises (and is suppressed further out in lax/warn mode) leaves nothing on the loop stack, so the
+# ---- parentloop of later loops is right (C06's harness, for C13)
+from contracts.C06 import _loop_args as _c06_loop_args, _with_contract as _c06_with_contract  # noqa: E402
+
+_c06_with_contract("loop", _c06_loop_args, prop="C13", body_raises=True)
